@@ -14,6 +14,7 @@ from .. import arr as A
 from ..report import Finding
 from ..shims import Key
 from .common import *
+from ..shims import tree_map
 from .convspec import conv_definition, option_box
 
 BIAS = ["auto", "mean", "scalar", True, False]
@@ -48,7 +49,12 @@ def worker(job):
         return dict(cfg=cfg, problems=problems)
     xb = {t: block("x", t, (c,), N, D) for t, c in in_sig}
     x = make_multi(it, [t for t, _ in in_sig], xb, D, flags)
-    if fast:
+    if fast == "roundtrip":
+        # the layer after a pytree flatten / unflatten (jit boundary, a training step): dict fields with sorted keys
+        layer = tree_map(lambda a: a, layer)
+        cfg["history"] = "pytree round trip of the layer"
+        res = attempt(lambda: layer(x))
+    elif fast:
         res = attempt(lambda: layer.fast_convolve(x, layer.weights))
     else:
         res = attempt(lambda: layer(x))
@@ -84,7 +90,7 @@ def worker(job):
     if mode is True:
         mode = "auto"
     for t in list(exp):
-        if fast or not mode:
+        if fast is True or not mode:
             continue
         b = layer.bias.get(t) if isinstance(layer.bias, dict) else None
         additive = t == (0, 0) and mode in ("auto", "scalar")
@@ -172,6 +178,13 @@ def run(ctx):
                 continue
             jobs.append((ctx.repo, D, isig, osig, False, "TORUS", 1, 1, None, (True,) * D, (), True))
             jobs.append((ctx.repo, D, isig, osig, False, "SAME", 1, 1, None, (False,) * D, (), True))
+    # layers that qualify for the single-convolution fast path (equal channel counts on each side, one filter size,
+    # no missing filter), types listed in a non-sorted order, through __call__ -- whichever path it dispatches to
+    for D in (2, 3) if th else (2,):
+        for isig, osig in (((((1, 0), 2), ((0, 0), 2)), (((1, 1), 3), ((1, 0), 3), ((0, 0), 3))), ((((0, 1), 1), ((0, 0), 1)), (((1, 0), 2), ((0, 1), 2)))):
+            for bias in ("auto", False):
+                jobs.append((ctx.repo, D, isig, osig, bias, "TORUS", 1, 1, None, (True,) * D, (), False))
+                jobs.append((ctx.repo, D, isig, osig, bias, "TORUS", 1, 1, None, (True,) * D, (), "roundtrip"))
     # the option box shared by C01 / C04 / C06 / C11, one signature with two types on each side, bias 'auto'
     for D in (2, 3) if th else (2,):
         for padding, stride, rd, ld, flags in option_box(D, (4, 5) if D == 2 else (3, 4, 3)):
@@ -182,7 +195,7 @@ def run(ctx):
         nontriv = len(cfg["input"]) >= 2 or len(cfg["target"]) >= 2 or cfg["use_bias"]
         ev.obligation("layer", not r["problems"], tuple(str(v) for v in cfg.values()) if nontriv else None, sample=cfg if ev.obligations % 31 == 0 else None)
         for kind, what, site in r["problems"]:
-            by.setdefault(("fast_convolve" if cfg["fast"] else "__call__", kind, str(cfg["use_bias"]) if kind == "types" else ""), []).append((what, site, cfg))
+            by.setdefault(("fast_convolve" if cfg["fast"] is True else "__call__", kind, str(cfg["use_bias"]) if kind == "types" else ""), []).append((what, site, cfg))
     for (entry, kind, bmode), items in sorted(by.items()):
         what, site, cfg = items[0]
         q = "ConvContract." + entry
